@@ -472,6 +472,10 @@ func lexQString(l *lexer) stateFn {
 			over = true
 			text = append(text, []byte(string(c))...)
 		case '\\':
+			// Remember where the backslash is: after the next rune has
+			// been read (it may be a line break) the cursor no longer
+			// tells.
+			bline, bcol := l.line, l.col-1
 			switch c = l.next(); c {
 			case 'n':
 				c = '\n'
@@ -487,7 +491,7 @@ func lexQString(l *lexer) stateFn {
 				// (e..g., \{) or to be part of of a special
 				// sequence such as \S.
 				if !l.inPattern {
-					l.ErrorfAt(l.line, l.col-2, `invalid escape sequence: \`+string(c))
+					l.ErrorfAt(bline, bcol, `invalid escape sequence: \`+string(c))
 				}
 				text = append(text, '\\')
 			}
